@@ -75,6 +75,12 @@ func olvmSignature(s *harness.Account, msg *olvm.Transaction, raw action.RawTx) 
 			sig.Signed = make([]byte, 65) // unsignable content (e.g. negative value): garbage signature
 		}
 	}()
+	// sign what the payload SAYS NOW (a spec whose Data was changed after construction - hostile amounts,
+	// addresses, code - is to be signed correctly for its new content); a payload that no longer parses is
+	// signed as the original message
+	if cur := new(olvm.Transaction); cur.Unmarshal(raw.Data) == nil && cur.ChainID != nil {
+		msg = cur
+	}
 	var to *ethcmn.Address
 	if msg.To != nil {
 		a := ethcmn.BytesToAddress(msg.To.Bytes())
